@@ -70,7 +70,8 @@ ASSUMPTIONS = [
     "the files under pdfminer/cmap and $CMAP_PATH do not change during the run (fresh load is a function of the name)",
     "LTPage.pageid is the ordinal of the page within one call (documented device counter) and is not part of the "
     "page result when pages are extracted one at a time",
-    "options range over password (user/owner), page_numbers, caching, laparams, output_type/codec utf-8; "
+    "options range over password (user/owner), page_numbers, maxpages, caching, laparams, output_type (codec utf-8), "
+    "rotation (extract_text_to_fp, XML output compared page for page); "
     "debug=True (mutates the root logger level) and output_dir (writes files) are outside the domain",
 ]
 STATEMENT_STATUS: Dict[str, str] = {
@@ -215,13 +216,19 @@ def impl_pages_iter(data: bytes, pw: str, pages, caching: bool, la: str, maxpage
                          maxpages=maxpages)
 
 
-def impl_tofp(data: bytes, pw: str, pages, caching: bool, la: str, otype: str) -> bytes:
+def xml_pages(s: str) -> List[str]:
+    """the <page> elements of an XML output without their ordinal id (bbox, rotate and content stay)"""
+    import re as _re
+    return _re.findall(r'<page id="[^"]*"(.*?</page>)', s, _re.S)
+
+
+def impl_tofp(data: bytes, pw: str, pages, caching: bool, la: str, otype: str, rotation: int = 0) -> bytes:
     from pdfminer.high_level import extract_text_to_fp
     from pdfminer.layout import LAParams
     out = io.BytesIO()
     lap = la_of(la) or LAParams()
     extract_text_to_fp(io.BytesIO(data), out, output_type=otype, codec="utf-8", laparams=lap, page_numbers=pages,
-                       password=pw, disable_caching=not caching)
+                       password=pw, disable_caching=not caching, rotation=rotation)
     return out.getvalue()
 
 
@@ -575,6 +582,17 @@ def baseline_job(data: bytes, pw: str, las: List[str], reverse: bool = False, li
             else:
                 r["tofp"] = {t: _try(lambda t=t: impl_tofp(data, pw, None, True, la, t).decode("utf-8", "surrogateescape"))
                              for t in ("text", "xml", "html", "tag")}
+                # XML (carries bbox and rotate of every page) page by page and all together, without and with
+                # the `rotation` option
+                npg = r.get("npages")
+                if not isinstance(npg, int):
+                    npg = len(r["pages"]) if isinstance(r.get("pages"), list) else 0
+                r["tofp_rot"] = {}
+                for rot in (0, 90):
+                    def one(pages, rot=rot):
+                        return xml_pages(impl_tofp(data, pw, pages, True, la, "xml", rot).decode("utf-8", "surrogateescape"))
+                    r["tofp_rot"][str(rot)] = {"all": _try(lambda: one(None)),
+                                               "single": [_try(lambda k=k: one([k])) for k in range(npg)]}
         res[la] = r
     return res
 
@@ -657,9 +675,11 @@ def gen_history(rng, docs: List[P.Doc], las_per_doc: List[List[str]], length: in
         elif r < 0.32:
             ops.append(["pages", di, o])
         elif r < 0.42:
-            ot = rng.choice(["text", "xml", "html", "tag"])
-            if ot != "text":
+            ot = rng.choice(["text", "xml", "xml", "html", "tag"])
+            if ot not in ("text", "xml"):
                 o["pages"] = None
+            if ot == "xml":
+                o["rotation"] = rng.choice([0, 0, 90])
             ops.append(["tofp", di, o, ot])
         elif r < 0.5:
             ops.append(["single", di, o, rng.randrange(d.npages)])
@@ -756,7 +776,23 @@ class Exec:
                 doc = docs[di]
                 allp = self.base[di][o["la"]]["tofp"][ot]
                 exp = allp
-                if ot == "text" and o["pages"] and not is_exc(allp):
+                rot = o.get("rotation", 0)
+                if ot == "xml":
+                    # page for page: every selected page as extracted alone in a fresh process
+                    singles = self.base[di][o["la"]]["tofp_rot"][str(rot)]["single"]
+                    exp = []
+                    for k in sel_pages(len(singles), o["pages"]):
+                        if is_exc(singles[k]):
+                            exp = singles[k]
+                            break
+                        exp.extend(singles[k])
+                    got = xml_pages(impl_tofp(doc.data, o["pw"], o["pages"], o["caching"], o["la"], ot, rot)
+                                    .decode("utf-8", "surrogateescape"))
+                    if got != exp:
+                        self.fail(idx, "extract_text_to_fp(xml) differs page for page from the pages extracted alone "
+                                  "in a fresh process", exp, got, dict(tags, output_type=ot, rotation=rot))
+                    exp = None
+                elif ot == "text" and o["pages"] and not is_exc(allp):
                     # text output of a subset = concatenation of the pages' own outputs
                     exp = None
                     parts = allp.split("\f")
@@ -764,7 +800,8 @@ class Exec:
                         exp = "".join(parts[k] + "\f" for k in sel_pages(doc.npages, o["pages"]))
                 elif ot == "text" and o["pages"]:
                     exp = None
-                got = impl_tofp(doc.data, o["pw"], o["pages"], o["caching"], o["la"], ot).decode("utf-8", "surrogateescape")
+                if ot != "xml":
+                    got = impl_tofp(doc.data, o["pw"], o["pages"], o["caching"], o["la"], ot).decode("utf-8", "surrogateescape")
                 if exp is not None and got != exp:
                     self.fail(idx, f"extract_text_to_fp({ot}) differs from the fresh-process baseline", exp, got,
                               dict(tags, output_type=ot))
@@ -944,6 +981,14 @@ def check_baseline_self(ctx: C.Ctx, seed: str, docs: List[P.Doc], base: List[Dic
             if "text" in r and r["text"] != want_text:
                 ctx.fail(C.Failure("extract_text page-at-a-time differs from all pages together (fresh process)",
                                    dict(inp, ops=[["text", d.idx, o]]), r["text"], want_text, {"op": "page-at-a-time"}))
+            for rot, tr in (r.get("tofp_rot") or {}).items():
+                want_xml = first_exc(tr["single"]) or [p for sp in tr["single"] for p in sp]
+                if tr["all"] != want_xml:
+                    ctx.fail(C.Failure("extract_text_to_fp(xml) page-at-a-time differs page for page from all pages "
+                                       "together (fresh process)",
+                                       dict(inp, ops=[["tofp", d.idx, dict(o, rotation=int(rot)), "xml"]]),
+                                       want_xml, tr["all"], {"op": "page-at-a-time", "output_type": "xml",
+                                                             "rotation": int(rot)}))
             want_pages = first_exc(r["single_pages"]) or [p for sp in r["single_pages"] for p in sp]
             if r["pages"] != want_pages:
                 ctx.fail(C.Failure("extract_pages page-at-a-time differs page for page from all pages together "
